@@ -611,6 +611,54 @@ func (x *VC) structuralObligations(fn *ssa.Function, c *Contract) {
 		}
 		x.addObl("calls-in-entry", want, "", "true", cond)
 	}
+	for _, want := range c.AlwaysCalls {
+		isCall := func(ins ssa.Instruction) bool {
+			ci, ok := ins.(*ssa.Call)
+			if !ok {
+				return false
+			}
+			if ci.Call.IsInvoke() {
+				return ci.Call.Method.Name() == want
+			}
+			if callee := ci.Call.StaticCallee(); callee != nil {
+				return callee.Name() == want || strings.HasSuffix(callee.String(), want)
+			}
+			return false
+		}
+		ok := len(fn.Blocks) > 0
+		for _, b := range fn.Blocks {
+			isRet := false
+			for _, ins := range b.Instrs {
+				if _, r := ins.(*ssa.Return); r {
+					isRet = true
+				}
+			}
+			if !isRet {
+				continue
+			}
+			found := false
+			for _, d := range fn.Blocks {
+				if d != b && !d.Dominates(b) {
+					continue
+				}
+				for _, ins := range d.Instrs {
+					if isCall(ins) {
+						found = true
+					}
+				}
+			}
+			if !found {
+				ok = false
+			}
+		}
+		cond := "false"
+		if ok {
+			cond = "true"
+		}
+		if o := x.addObl("always-calls", "every return follows a call of "+want, "", "true", cond); o != nil {
+			o.Note = "no path may return without having called " + want
+		}
+	}
 	if c.AlwaysSends {
 		// every return of the function is dominated by a channel send made by the function itself (an unconditional,
 		// blocking `ch <- v`; a send inside `select`, in a callee or in a goroutine does not count)
@@ -695,5 +743,5 @@ func (x *VC) structuralObligations(fn *ssa.Function, c *Contract) {
 }
 
 func (c *Contract) hasStructural() bool {
-	return c.Recovers || len(c.Defers) > 0 || len(c.ClosureFirst) > 0 || c.AlwaysSends || len(c.CallsInEntry) > 0 || len(c.CallsAfter) > 0
+	return c.Recovers || len(c.Defers) > 0 || len(c.ClosureFirst) > 0 || c.AlwaysSends || len(c.AlwaysCalls) > 0 || len(c.CallsInEntry) > 0 || len(c.CallsAfter) > 0
 }
